@@ -140,6 +140,11 @@ def extract():
     defs["axisInversionForRas"] = (
         "def axisInversionForRas : List (Char × Int) := "
         + lean_list(f"('{k}', {v})" for k, v in inv.items()))
+    codes = _const_eval(_assign_value(sl, "POSSIBLE_AXIS_ORIENTATIONS"))
+    if not (isinstance(codes, list) and all(isinstance(c, str) for c in codes)):
+        raise TableError("POSSIBLE_AXIS_ORIENTATIONS is not a list of strings")
+    defs["possibleAxisOrientations"] = ("def possibleAxisOrientations : List (List Char) := "
+                                        + lean_list("[" + ", ".join(f"'{ch}'" for ch in c) + "]" for c in codes))
     return defs
 
 
